@@ -864,14 +864,20 @@ class RewriteRuleSet:
             # Apply rewrite rules to subgraphs of the node.
             for attr in node.attributes.values():
                 if attr.type == ir.AttributeType.GRAPH:
-                    count += self._apply_to_graph_or_function(
-                        model, attr.value, verbose=verbose, tracer=tracer
-                    )
+                    subgraphs = [attr.value]
                 elif attr.type == ir.AttributeType.GRAPHS:
-                    for graph in attr.value:
-                        count += self._apply_to_graph_or_function(
-                            model, graph, verbose=verbose, tracer=tracer
-                        )
+                    subgraphs = list(attr.value)
+                else:
+                    continue
+                for graph in subgraphs:
+                    count += self._apply_to_graph_or_function(
+                        model, graph, verbose=verbose, tracer=tracer
+                    )
+                    # A replacement inside a subgraph may use a domain its container does not
+                    # import yet (only the container's imports are serialized: a model-local
+                    # function body holding an If/Loop would call an unimported domain).
+                    for domain, version in graph.opset_imports.items():
+                        graph_or_function.opset_imports.setdefault(domain, version)
 
         for rule in self.rules:
             if rule.graph_post_visitor:
